@@ -137,7 +137,7 @@ def check_pairwise(case):
 
 
 def strategy():
-    return gen_unit.aligner_case(min_peaks=2, max_peaks=8)
+    return gen_unit.mixed_case(min_peaks=2, max_peaks=8)
 
 
 def subchecks(tier):
